@@ -91,8 +91,11 @@ def compose_section_desc(draw, id_prefix=None):
     date = draw(date8)
     rsp = draw(respin)
     prefix = id_prefix if id_prefix is not None else draw(st.sampled_from(["F-22", "RHEL-7.2", "Foo-Bar-1.0-updates", "x-Rawhide"]))
-    return {"id": "%s-%s%s.%d" % (prefix, date, COMPOSE_SUFFIX[ctype], rsp), "type": ctype, "date": date, "respin": rsp,
-            "label": draw(label), "final": draw(st.booleans())}
+    cid = "%s-%s%s.%d" % (prefix, date, COMPOSE_SUFFIX[ctype], rsp)
+    if draw(st.integers(0, 5)) == 0:
+        # the id is free-form as long as it carries an 8-digit date: tails that merely LOOK like a type suffix or a respin are legal
+        cid = "%s-%s%s" % (prefix, date, draw(st.sampled_from([".hotfix.2", ".production.0", ".x", "-Server", ".n", "", ".1.2.3", ".nightly.0.extra", " (final)", ".N.1"])))
+    return {"id": cid, "type": ctype, "date": date, "respin": rsp, "label": draw(label), "final": draw(st.booleans())}
 
 
 def subsets(items, min_size=0, max_size=None):
